@@ -603,6 +603,9 @@ def _canon(x, un, path):
     if t is float:
         return ["float", repr(x)]
     if t is str:
+        if un and "{" in x and "}" in x:
+            # text that may be the print-out of a set (str(set) inside a container): order-free
+            return ["text-multiset", "".join(sorted(x))]
         return ["str", _ADDR.sub(" at 0x?", x) if " at 0x" in x else x]
     if t is bytes:
         if b" at 0x" in x:
